@@ -224,6 +224,15 @@ def near_identical(bench):
     """batches made of a base request followed by its one-attribute variants: a plain forced-mode request with an
     explicit transceiver power, a STRICT include list no route can honour (an amplifier of the opposite direction /
     nodes in an impossible order), a STRICT include list that can be honoured, an automatic-mode bidirectional one"""
+    if split_bench(bench)[1]:
+        # non-default simulation parameters (GGN: seconds per span): one-span routes, the variants that change the comb
+        # or the direction; forced mode and bidirectional automatic mode
+        a, b = ('Vannes_KBE', 'Lorient_KMA') if bench.startswith('meshV2') else ('a', 'b')
+        bases = [rq('A', a, b, tx_power=1e-4, power=1e-3, bw=200e9),
+                 rq('C', b, a, mode=None, spacing=75e9, bidir=True, bw=300e9)]
+        keep = ('spacing', 'nch', 'bidir')
+        return [(f'near-identical-{x["request-id"]}',
+                 loadable(bench, [x] + [v for v in variants(x) if v['request-id'].split('~')[1] in keep])) for x in bases]
     if bench.startswith('meshV2'):
         bases = [rq('A', 'Lannion_CAS', 'Lorient_KMA', tx_power=1e-4, power=1e-3, bw=200e9),
                  rq('B', 'Lorient_KMA', 'Lannion_CAS', route=['west edfa in Lorient_KMA to Loudeac'], bw=100e9),
@@ -234,11 +243,6 @@ def near_identical(bench):
                  rq('B', 'a', 'h', route=['roadm g', 'roadm a', 'roadm g'], bw=100e9),
                  rq('C', 'f', 'b', route=['roadm c'], mode=None, spacing=75e9, bidir=True, bw=300e9)]
     out = [(f'near-identical-{b["request-id"]}', loadable(bench, [b] + variants(b))) for b in bases]
-    if split_bench(bench)[1]:
-        # GGN models need the roll-off of the propagated mode; the reverse propagation of an automatic-mode request
-        # has none (TypeError in _generalized_psi, alone as well as in a batch: not an independence matter) - left out
-        out = [(n, [r for r in reqs if not (r['bidirectional'] and r['path-constraints']['te-bandwidth']['trx_mode'] is None)])
-               for n, reqs in out]
     return out
 
 
